@@ -100,5 +100,74 @@ PROPS = {
                         "offset - start + 1 is not representable)",
                         "LineIndex::build: bounded evidence only (all texts of 5 bytes over {LF,CR,'a'})"],
     },
+    "C03": {
+        "level": "proof",
+        "explanation": "History-quantified part: for the cursor, Kani proves the inductive step -- from ANY cursor state satisfying the stated "
+                       "invariant (positioned on element idx with a consistent remaining-bits cache, or exhausted), each of advance_one, "
+                       "advance_by(k) for every k: usize, seek(j), and the constructors cursor()/cursor_from(j) returns the element the same "
+                       "operation reaches on the plain sequence, reports index == min(target, len) and re-establishes the invariant; every finite "
+                       "interleaving follows by induction on its length. The data is bounded (4 symbolic 64-bit words of high bits, no low bits); "
+                       "get/predecessor/read_low_bits/build have their own obligations (see samples).",
+        "trusted_base": COMMON_TRUST + ["select_in_word / block_popcount replaced by their proved contracts (C02) inside the cursor harnesses"],
+        "assumptions": ["data bound: high-bit bitmaps of 4 words (256 bits); low bits handled separately by the read_low_bits contract",
+                        "EliasFano::build: bounded evidence only"],
+    },
+    "C13": {
+        "level": "other",
+        "explanation": "bounded + complete pieces: (complete) encode_code_point/decode_code_point round-trip for every u32 and every 4-byte "
+                       "window; line_and_column's SWAR newline counter against the naive count; (bounded) validate_utf8_scalar against the "
+                       "Unicode Table 3-7 definition for all inputs of length <= 5 (verdict, kind, line/column, offset); the AVX2 and broadword "
+                       "acceptors against the definition on inputs whose symbolic bytes sit on 8/32-byte block boundaries and at the end of "
+                       "exact-multiple and partial tail blocks (engine == scalar result follows because both wrappers defer to the scalar "
+                       "validator whenever their acceptor says no). No unbounded proof of the validators' loops was obtained.",
+        "trusted_base": COMMON_TRUST + [MODELS + "_mm256_max_epu8, _mm256_testz_si256"],
+        "assumptions": ["bounded: see coverage.bounded for the exact input shapes", "the is_x86_feature_detected! wrapper validate_utf8_simd is not executed by Kani (cpuid)"],
+    },
+    "C09": {
+        "level": "proof",
+        "explanation": "Per character the claim is complete: for EVERY Unicode scalar value (symbolic char) each of the four writers, run on "
+                       "the real code through a fixed-capacity fmt::Write sink, produces a body that an RFC 8259 string decoder maps back to "
+                       "that character, and the body starts with a backslash exactly when the convention requires an escape. The scanner masks "
+                       "are exact per lane for all chunks. Concatenation over longer strings and the scanner's chunk loops are bounded "
+                       "(2-character strings; 21- and 83-byte buffers with every start offset).",
+        "trusted_base": COMMON_TRUST + [MODELS + "_mm256_subs_epu8, _mm_subs_epu8"],
+        "assumptions": ["strings longer than 2 characters / buffers longer than 83 bytes: by the stateless per-character structure only (bounded evidence)",
+                        "NEON scanner unverified; avx2_enabled() (cpuid) not executed, dispatch(use_avx2) checked for both values"],
+    },
+    "C16": {
+        "level": "other",
+        "explanation": "bounded, kernel sentence only: the second sentence of the property (each vectorised scanning kernel returns the same "
+                       "answer as its scalar counterpart for every buffer and start offset) is checked by Kani on the real kernels with the "
+                       "AVX2 flag nondeterministic (both the AVX2 and the SSE2 arm): classify_yaml_chars is complete per lane; the scanning "
+                       "kernels (find_newline, find_quote_or_escape, find_single_quote, count_leading_spaces, parse_anchor_name, "
+                       "find_block_scalar_end) for all 51-byte buffers (one 32-byte iteration, one 16-byte step, a scalar tail) and every "
+                       "start/end/min_indent. The first sentence (identical whole index and output across configurations) is NOT decided: it "
+                       "needs a proof about the 7k-line parser that consumes the kernels.",
+        "trusted_base": COMMON_TRUST + ["avx2_enabled() (env clamp + cpuid) replaced by a nondeterministic boolean"],
+        "assumptions": ["buffers of 51 bytes only; whole-index equality across kernel configurations not covered"],
+    },
+    "C17": {
+        "level": "other",
+        "explanation": "inductive in the lookup history, bounded in data: the table is built by the real builder from a symbolic sequence of "
+                       "5 positions (text length 130); the private cursor cell is then overwritten with ANY cursor value satisfying the stated "
+                       "invariant and one get(i) with symbolic i is executed: the answer must be the recorded position and the invariant must "
+                       "hold afterwards; the default cursor satisfies the invariant. All lookup orders follow by induction on the length of the "
+                       "history. Dense fallbacks are plain Vec indexing.",
+        "trusted_base": COMMON_TRUST + ["select_in_word / block_popcount replaced by their proved contracts (C02)"],
+        "assumptions": ["data bound: 5 positions, text_len 130 (3 IB words, one advance word)", "positions strictly less than text_len (see DESIGN: a position equal to a text length that is a multiple of 64 is outside the stored bitmap)"],
+    },
+    "C04": {
+        "level": "other",
+        "explanation": "partly proved, partly bounded, with a declared gap: (proved, Kani, complete) all word kernels and byte tables used by "
+                       "the excess searches (find_unmatched_close_in_word, find_close_in_word, word_min_excess*, word_max_excess_rev, the four "
+                       "BYTE_* tables); (proved, Verus, all lengths) the rank side of BalancedParens on the real text -- rank1, rank1_slow and "
+                       "the operations composed from them -- given the rank-directory invariant; (bounded, Kani) find_close_in_word_fast at five "
+                       "(start, valid_bits) shapes and every public navigation operation of a 2-word, 100-bit BalancedParens against the "
+                       "excess-scan definition. NOT covered: the L1/L2 block skipping of find_close_from on vectors longer than a few words, "
+                       "build_bp_index's L1/L2 builders, the select-support variants at non-default rates, the simd (SSE4.1) builders.",
+        "trusted_base": COMMON_TRUST + ["Verus 0.2026.09.13 + Z3"],
+        "assumptions": ["words.len() == ceil(len/64) and len <= u32::MAX (asserted by every constructor)",
+                        "build_bp_index establishes the rank-directory invariant (assumed; bounded support only)"],
+    },
 }
 FIX_COMMITS = ["2cec8d3"]
